@@ -76,7 +76,7 @@ def cleanup_module(mod):
                 del reg[k]
 
 
-def check(code, checker=None, visitor_cls=NameCheckVisitor, keep_module=False, want_tree=False, **kw):
+def check(code, checker=None, visitor_cls=NameCheckVisitor, keep_module=False, want_tree=False, want_module=False, **kw):
     """Run the real visitor over a source string.  Returns the list of failure dicts
     (or (failures, tree) when want_tree).  Raises whatever pyanalyze raises."""
     if checker is None:
@@ -89,8 +89,10 @@ def check(code, checker=None, visitor_cls=NameCheckVisitor, keep_module=False, w
             with contextlib.redirect_stderr(io.StringIO()), contextlib.redirect_stdout(io.StringIO()):
                 res = v.check()
     finally:
-        if not keep_module:
+        if not keep_module and not want_module:
             cleanup_module(mod)
+    if want_module:
+        return res, tree, mod      # caller must call cleanup_module(mod)
     if want_tree:
         return res, tree
     return res
